@@ -669,11 +669,21 @@ class Exec:
             return ops.And(*[self.py_eq(a, b) for a, b in zip(l, r)]) if l else True
         if isinstance(l, (SObj,)) or isinstance(r, (SObj,)):
             if isinstance(l, SObj) and isinstance(r, SObj):
+                dc = False
                 for o in (l, r):
                     for c in o._cls_set:
-                        if source.find_method(c, "__eq__") or source.class_table().get(c, None) and source.class_table()[c].is_dataclass:
+                        if source.find_method(c, "__eq__"):
                             raise OutOfSubset("== on objects with __eq__")
-                return l is r
+                        if source.class_table().get(c, None) and source.class_table()[c].is_dataclass:
+                            dc = True
+                if l is r:
+                    return True  # (dataclass field-wise equality of an object with itself; NaN fields not modelled)
+                if dc:
+                    if not (set(l._cls_set) & set(r._cls_set)):
+                        return False
+                    # generated field-wise __eq__ of two distinct objects: any outcome (sound over-approximation)
+                    return z3.Bool(fresh_name("dataclass_eq"))
+                return False
             return False
         if isinstance(l, FStr) or isinstance(r, FStr):
             if isinstance(l, FStr) and isinstance(r, FStr):
